@@ -191,6 +191,8 @@ func c05reps() []c05rep {
 	}
 }
 
+var c05bigReps = map[string]bool{"ods-file": true, "odsq4-file": true, "odsq4-file-q4-deleted": true, "store/reopened": true, "cachedstore/first": true}
+
 func TestC05(t *testing.T) {
 	run := vkit.NewRun(t, "C05", "exploration",
 		"cases = generated square (width × layout × every tail-padding amount for small widths, + empty block) × representation "+
@@ -220,6 +222,10 @@ func TestC05(t *testing.T) {
 		}
 	}
 	big := []int{8, 16}
+	// the protocol maximum (ODS width 128) is where 16-bit size arithmetic in the file format would
+	// overflow: one such square (and one of width 64) is always included, read through the file-backed
+	// representations only to bound the cost
+	cases = append(cases, sqcase{64, "runs", 64 + 3, false}, sqcase{128, "padded", 128*3 + 1, false})
 	if vkit.Thorough() {
 		big = []int{8, 16, 32, 64, 128}
 		for p := 0; p < 64; p++ { // every tail padding for width 8
@@ -254,6 +260,9 @@ func TestC05(t *testing.T) {
 		isEmpty := sq.Layout == "empty"
 		for _, rep := range reps {
 			if isEmpty && rep.skipEmpty {
+				continue
+			}
+			if sq.W >= 64 && !vkit.Thorough() && !c05bigReps[rep.name] {
 				continue
 			}
 			acc, cleanup, err := rep.open(dir, sq, height)
